@@ -12,7 +12,7 @@ Coq tables and the predicates are proved in Coq over those tables.
 import hashlib, json, os, re, subprocess, sys, tempfile
 from concurrent.futures import ThreadPoolExecutor
 
-VERSION = "11"          # bump to invalidate the cache when the extractor changes
+VERSION = "12"          # bump to invalidate the cache when the extractor changes
 JOBS = 4
 
 
@@ -75,6 +75,9 @@ class Reducer:
         self.cons, self.events, self.pcache, self.ntemp = [], [], {}, 0
         self.static_ids = set()
         self.cur_func = None
+        self.cur_body = None
+        self.cur_rets, self.cur_vassign = [], {}
+        self.header_decls = set()
         self.tu = os.path.relpath(main_file, repo)
         self.records, self.fieldrec, self.typedefs, self.recbyname, self.recnames = {}, {}, {}, {}, {}
         self.cur_params = {}
@@ -164,6 +167,8 @@ class Reducer:
             ret = qt.split("(")[0].strip()
             params = [(c.get("name", ""), c.get("type", {}).get("qualType", "")) for c in d.get("inner", []) or [] if c.get("kind") == "ParmVarDecl"]
             name = d.get("name")
+            if f and "/include/" in f and self.in_repo(f):
+                self.header_decls.add(name)
             old = self.functions.get(name)
             if self.in_repo(f) or old is None:
                 if old is None or has_body or not old["has_body"]:
@@ -172,7 +177,12 @@ class Reducer:
             if has_body and self.in_repo(f):
                 for c in d.get("inner", []):
                     if c.get("kind") == "CompoundStmt":
+                        self.cur_body = c
+                        self.cur_rets, self.cur_vassign = [], {}
                         self.body(c, name, f, d)
+                        self.functions[name]["rets"] = self.cur_rets
+                        self.functions[name]["vassign"] = self.cur_vassign
+                        self.cur_body = None
 
     def var(self, d, func):
         f, line = d["_fl"] or (None, 0)
@@ -223,6 +233,8 @@ class Reducer:
             elif k == "RecordDecl":
                 self.record_decl(x)
             self.constraints(x)
+            if self.cur_body is not None:
+                self.status_facts(x)
             for c in reversed(x.get("inner", []) or []):
                 if isinstance(c, dict):
                     stack.append(c)
@@ -335,7 +347,128 @@ class Reducer:
         used, how = self.result_used(c)
         args = [self.argdesc(a, f) for a in (c.get("inner") or [])[1:]]
         self.calls.append({"file": f, "func": func, "callee": name, "line": line, "used": used, "how": how,
-                           "args": args, "text": self.text(c, f)})
+                           "args": args, "text": self.text(c, f), "tests": self.status_tests(c) if used else []})
+
+    # --- how a returned status is tested (C18): "cmp:<op>:<n>" (status <op> n), "not" (!status), "truth" (status used as
+    #     a condition), "returned" (handed to the caller), "switch", "unknown:<why>"
+    CMP = {"==": "==", "!=": "!=", "<": ">", ">": "<", "<=": ">=", ">=": "<="}      # flipped when the status is the right operand
+
+    @staticmethod
+    def int_literal(e):
+        e = _strip(e)
+        if e.get("kind") == "IntegerLiteral":
+            try:
+                return int(e.get("value"))
+            except (TypeError, ValueError):
+                return None
+        if e.get("kind") == "UnaryOperator" and e.get("opcode") == "-" and e.get("inner"):
+            v = Reducer.int_literal(e["inner"][0])
+            return -v if v is not None else None
+        return None
+
+    def status_tests(self, c, depth=0):
+        x, var = c, None
+        while True:
+            p = x.get("_p")
+            if p is None:
+                return ["unknown:top"]
+            pk, i = p.get("kind"), x.get("_i")
+            if pk in ("ParenExpr", "ImplicitCastExpr", "ConstantExpr"):
+                x = p; continue
+            if pk == "CStyleCastExpr":
+                if p.get("type", {}).get("qualType") == "void":
+                    return self.var_tests(var, depth) if var else []
+                x = p; continue
+            if pk == "BinaryOperator":
+                op = p.get("opcode")
+                if op in self.CMP:
+                    v = self.int_literal(p["inner"][1 - i])
+                    if v is None:
+                        return ["unknown:compared-with-non-literal"]
+                    return ["cmp:%s:%d" % (op if i == 0 else self.CMP[op], v)]
+                if op == "=" and i == 1:
+                    l = _strip(p["inner"][0])
+                    if l.get("kind") == "DeclRefExpr" and l.get("referencedDecl", {}).get("kind") in ("VarDecl", "ParmVarDecl"):
+                        var = l["referencedDecl"].get("id")
+                        x = p; continue
+                    return ["unknown:stored"]
+                if op in ("&&", "||"):
+                    return ["truth"]
+                if op == ",":
+                    if i == 1:
+                        x = p; continue
+                    return self.var_tests(var, depth) if var else []
+                return ["unknown:arithmetic"]
+            if pk == "CompoundAssignOperator":
+                return ["unknown:arithmetic"]
+            if pk == "UnaryOperator":
+                return ["not"] if p.get("opcode") == "!" else ["unknown:arithmetic"]
+            if pk == "ConditionalOperator":
+                if i == 0:
+                    return ["truth"]
+                x = p; continue
+            if pk in ("IfStmt", "WhileStmt"):
+                return ["truth"] if i == 0 else (self.var_tests(var, depth) if var else [])
+            if pk == "DoStmt":
+                return ["truth"] if i == 1 else (self.var_tests(var, depth) if var else [])
+            if pk == "ForStmt":
+                return ["truth"] if i == 2 else (self.var_tests(var, depth) if var else [])
+            if pk == "SwitchStmt":
+                return ["switch"] if i == 0 else (self.var_tests(var, depth) if var else [])
+            if pk == "ReturnStmt":
+                return ["returned"]
+            if pk == "VarDecl":
+                return self.var_tests(p.get("id"), depth)
+            if pk in ("CompoundStmt", "CaseStmt", "DefaultStmt", "LabelStmt"):
+                return self.var_tests(var, depth) if var else []
+            if pk == "CallExpr":
+                return ["unknown:passed-as-argument"]
+            return ["unknown:" + str(pk)]
+
+    def var_tests(self, decl_id, depth):
+        """every test applied anywhere in the enclosing function to the variable that holds the status"""
+        if decl_id is None or self.cur_body is None or depth > 1:
+            return ["unknown:variable"]
+        out = []
+        stack = [self.cur_body]
+        while stack:
+            x = stack.pop()
+            if x.get("kind") == "DeclRefExpr" and x.get("referencedDecl", {}).get("id") == decl_id:
+                p = x.get("_p") or {}
+                if p.get("kind") == "ImplicitCastExpr" and p.get("castKind") == "LValueToRValue":
+                    for t in self.status_tests(p, depth + 1):
+                        if t not in out and not t.startswith("unknown:passed") and t != "unknown:arithmetic":
+                            out.append(t)
+            stack.extend(c for c in (x.get("inner") or []) if isinstance(c, dict))
+        return sorted(out) or ["unknown:never-tested"]
+
+    def status_facts(self, x):
+        """return statements and integer-variable assignments of the current function (failure values of a status function)"""
+        k = x.get("kind")
+        def desc(e):
+            v = self.int_literal(e)
+            if v is not None:
+                return {"k": "int", "v": v}
+            e = _strip(e)
+            if e.get("kind") == "CallExpr":
+                n = self.callee_name(e)
+                return {"k": "call", "f": n} if n else {"k": "other"}
+            if e.get("kind") == "DeclRefExpr" and e.get("referencedDecl", {}).get("kind") in ("VarDecl", "ParmVarDecl"):
+                return {"k": "var", "n": e["referencedDecl"].get("name")}
+            if e.get("kind") == "BinaryOperator" and e.get("opcode") == "=" and e.get("inner"):
+                return desc(e["inner"][1])
+            return {"k": "other"}
+        inner = x.get("inner") or []
+        if k == "ReturnStmt" and inner:
+            self.cur_rets.append(desc(inner[0]))
+        elif k == "BinaryOperator" and x.get("opcode") == "=" and len(inner) == 2:
+            l = _strip(inner[0])
+            if l.get("kind") == "DeclRefExpr" and l.get("referencedDecl", {}).get("kind") == "VarDecl":
+                self.cur_vassign.setdefault(l["referencedDecl"].get("name"), []).append(desc(inner[1]))
+        elif k == "VarDecl" and x.get("type", {}).get("qualType") == "int":
+            init = [c for c in inner if "Expr" in c.get("kind", "") or c.get("kind", "").endswith("Literal") or c.get("kind") in ("UnaryOperator", "BinaryOperator")]
+            if init:
+                self.cur_vassign.setdefault(x.get("name"), []).append(desc(init[-1]))
 
     # --- points-to constraints and write events (consumed by tools/globals.py) -----------------
     # abstract objects:  G:<name>[@tu]  static-storage object      L:<func>:<name>@tu  local
@@ -703,7 +836,8 @@ def reduce_tu(src, incs, defs, repo):
     for fn in r.functions.values():
         fn["file"] = rel(fn["file"])
     return {"src": rel(src), "functions": r.functions, "calls": r.calls, "objects": r.objects, "cons": r.cons, "events": r.events,
-            "statics": sorted(n for n, f in r.functions.items() if f["static"] and f["has_body"])}
+            "statics": sorted(n for n, f in r.functions.items() if f["static"] and f["has_body"]),
+            "header_decls": sorted(r.header_decls)}
 
 
 def _key(src, incs, defs, repo):
